@@ -32,6 +32,7 @@
 #include <unistd.h>
 #include <errno.h>
 #include <sys/mman.h>
+#include <pthread.h>
 #include <sys/types.h>
 #include <sys/syscall.h>
 #include "TinyJAMBU.h"
@@ -333,6 +334,13 @@ static void op_enc(void)
     long vg0 = VG_ERRORS();
     SECRET(k.p, k.len); SECRET((void *)mp, m.len);
     get_enc(mode, v)(c.p, &clen, mp, m.len, gptr(&ad), ad.len, n.p, k.p);
+    if (kvi("again", 0) && !alias) {
+        /* the same call once more into the same output buffer, whose body was overwritten in the meantime but whose last
+         * eight bytes still hold the tag of the first call: the result may not depend on what the buffer held before */
+        for (size_t i = 0; i < m.len; i++) c.p[i] = (unsigned char)(0x3C + i);
+        clen = (size_t)-1;
+        get_enc(mode, v)(c.p, &clen, mp, m.len, gptr(&ad), ad.len, n.p, k.p);
+    }
     PUBLIC(k.p, k.len); PUBLIC((void *)mp, m.len); PUBLIC(c.p, c.len); PUBLIC(&clen, sizeof(clen));
     long vgerr = VG_ERRORS() - vg0;
     grw(&k); grw(&n); grw(&ad); grw(&m);
@@ -550,6 +558,8 @@ static void op_decbig(void)
     gfree(&k); gfree(&n); gfree(&ad); gfree(&m); gfree(&c); gfree(&o);
 }
 
+static void *run_decbig(void *arg) { (void)arg; op_decbig(); return NULL; }
+
 /* ------------------------------------------------------------------ lengths of 4 GiB and more
  * The message is a lazily mapped all-zero region (virtual memory only), described in the event as "zeros:<n>".
  * hashhuge split=a,b,c : hash 'total' zero bytes in one call (no split) or in the given chunks;
@@ -694,8 +704,10 @@ static void op_hash(void)
     jint("taint", vgerr); jint("inplace", inplace); jend();
     free(mc); gfree(&m); gfree(&out);
 }
+static int hinj_skipped[];
 static void op_hinit(int re)
 {
+    hinj_skipped[kvi("obj", 0) & 7] = 0;
     gbuf *o = getobj(hashobj, "hashstate", sizeof(tinyjambu_hash_state_t));
     long vg0 = VG_ERRORS();
     if (re) tinyjambu_hash_reinit(ONCE((tinyjambu_hash_state_t *)o->p)); else tinyjambu_hash_init(ONCE((tinyjambu_hash_state_t *)o->p));
@@ -714,8 +726,34 @@ static void op_hmove(void)
     if (d != o) { memcpy(d->p, o->p, o->len); memset(o->p, 0xDD, o->len); }
     jbegin("HMove"); jint("obj", kvi("obj", 0)); jint("to", to); jint("canary", gcanary(o) && gcanary(d)); jend();
 }
+/* hinject obj= L=<16 bytes hex> R=<16 bytes hex> : white-box probe of the compression function's chaining values.  The
+ * caller-owned hash state is overwritten with a chosen (L, R) - values a real message reaches with probability 2^-32 per
+ * word, e.g. a word of R that is all ones or all zero - and the following update / finalize calls are judged by the
+ * specification from exactly that state.  The private layout (L, ~R, 16-byte block, posn) is checked through the API
+ * first; if it is not recognised the probe and the calls that depend on it are skipped (HInjectSkip), never failed. */
+static int hinj_skipped[NOBJ];
+static void op_hinject(void)
+{
+    gbuf *o = getobj(hashobj, "hashstate", sizeof(tinyjambu_hash_state_t));
+    gbuf L, R; gvalue(&L, "L", kv("L", "-"), 1); gvalue(&R, "R", kv("R", "-"), 2);
+    static const unsigned char probe[5] = {0x31, 0x41, 0x59, 0x26, 0x53};
+    int ok = sizeof(tinyjambu_hash_state_t) == 56 && L.len == 16 && R.len == 16;
+    memset(o->p, 0xAA, o->len);
+    tinyjambu_hash_init((tinyjambu_hash_state_t *)o->p);
+    for (int i = 0; ok && i < 16; i++) ok = o->p[i] == 0 && o->p[16 + i] == 0xFF;
+    tinyjambu_hash_update((tinyjambu_hash_state_t *)o->p, probe, 5);
+    ok = ok && !memcmp(o->p + 32, probe, 5) && o->p[48] == 5 && o->p[49] == 0 && o->p[50] == 0 && o->p[51] == 0;
+    hinj_skipped[kvi("obj", 0) & 7] = !ok;
+    if (!ok) { jbegin("HInjectSkip"); jint("obj", kvi("obj", 0)); jend(); gfree(&L); gfree(&R); return; }
+    tinyjambu_hash_init((tinyjambu_hash_state_t *)o->p);
+    memcpy(o->p, L.p, 16);
+    for (int i = 0; i < 16; i++) o->p[16 + i] = (unsigned char)~R.p[i];
+    jbegin("HInject"); jint("obj", kvi("obj", 0)); jbytes("L", L.p, 16); jbytes("R", R.p, 16); jint("canary", gcanary(o)); jend();
+    gfree(&L); gfree(&R);
+}
 static void op_hupdate(void)
 {
+    if (hinj_skipped[kvi("obj", 0) & 7]) { jbegin("HInjectSkip"); jint("obj", kvi("obj", 0)); jend(); return; }
     gbuf *o = getobj(hashobj, "hashstate", sizeof(tinyjambu_hash_state_t));
     gbuf d; gvalue(&d, "in", kv("d", "-"), 1);
     unsigned char *dc = dupbuf(&d);
@@ -732,6 +770,7 @@ static void op_hupdate(void)
 }
 static void op_hfinal(void)
 {
+    if (hinj_skipped[kvi("obj", 0) & 7]) { jbegin("HInjectSkip"); jint("obj", kvi("obj", 0)); jend(); return; }
     gbuf *o = getobj(hashobj, "hashstate", sizeof(tinyjambu_hash_state_t));
     gbuf out; galloc(&out, "out", 32, g_place, g_offn > 0 ? g_off[0] : 0);
     memset(out.p, (int)kvi("pf", 0xA5), 32);
@@ -988,8 +1027,13 @@ static size_t scripted_cb(void *user_data, unsigned char *buf, size_t size)
     if (script_pos < script_len) { n = script[script_pos].n; memcpy(tmp, script[script_pos].bytes, 32); }
     else { n = 32; gen_data(tmp, 32, 0xE000 + (uint64_t)script_pos, 'r'); }
     script_pos++;
-    if (n > (int)size) n = (int)size;
-    if (n > 0) { memcpy(buf, tmp, (size_t)n); SECRET(buf, (size_t)n); }
+    if (n == -32) {            /* "echo": the delivery is whatever the buffer already holds */
+        n = (int)(size < 32 ? size : 32);
+        PUBLIC(buf, (size_t)n); memcpy(tmp, buf, (size_t)n); SECRET(buf, (size_t)n);
+    } else {
+        if (n > (int)size) n = (int)size;
+        if (n > 0) { memcpy(buf, tmp, (size_t)n); SECRET(buf, (size_t)n); }
+    }
     if (ncalls < MAXSCRIPT) {
         calls[ncalls].n = n; memcpy(calls[ncalls].bytes, tmp, 32); calls[ncalls].asked = size;
         calls[ncalls].udok = (user_data == (void *)&ud_cookie);
@@ -1053,6 +1097,7 @@ static void op_script(void)
         if (script_len >= MAXSCRIPT) die("script too long");
         memset(script[script_len].bytes, 0, 32);
         if (!strncmp(tok, "none", 4)) script[script_len].n = 0;
+        else if (!strncmp(tok, "echo", 4)) script[script_len].n = -32;      /* claims 32 bytes, writes nothing */
         else {
             char *hx = strchr(tok, ':');
             if (!hx) die("bad script item");
@@ -1338,7 +1383,7 @@ static void op_reset(void)
         if (hkdfobj[i].map) gfree(&hkdfobj[i]);
         if (prngobj[i].map) gfree(&prngobj[i]);
     }
-    script_len = script_pos = 0; memset(inj_skipped, 0, sizeof(inj_skipped));
+    script_len = script_pos = 0; memset(inj_skipped, 0, sizeof(inj_skipped)); memset(hinj_skipped, 0, sizeof(int) * NOBJ);
     obj_fill = (int)kvi("fill", 0xAA);
     jbegin("Reset"); jend();
 }
@@ -1372,6 +1417,15 @@ int main(void)
         { const char *o = kv("off", NULL);
           if (o) { char *c = strdup(o), *sv = NULL; for (char *t = strtok_r(c, ",", &sv); t && g_offn < 8; t = strtok_r(NULL, ",", &sv)) g_off[g_offn++] = (unsigned)atoi(t); free(c); } }
         g_evals = 0;
+        if (kvi("smallstack", 0) && !strcmp(cur_op, "decbig")) {
+            /* the call runs on a 96 KiB stack: the library's own stack use must not grow with the message (an embedded
+             * task or a small-stack thread decrypting a large packet); an overflow ends the process and is reported as a fault */
+            pthread_attr_t at; pthread_t th;
+            pthread_attr_init(&at); pthread_attr_setstacksize(&at, 96 * 1024);
+            if (pthread_create(&th, &at, run_decbig, NULL)) die("cannot create the small-stack thread");
+            pthread_join(th, NULL); pthread_attr_destroy(&at);
+            continue;
+        }
         if (!strcmp(cur_op, "reset")) op_reset();
         else if (!strcmp(cur_op, "enc")) op_enc();
         else if (!strcmp(cur_op, "dec")) op_dec(0);
@@ -1388,6 +1442,7 @@ int main(void)
         else if (!strcmp(cur_op, "hreinit")) op_hinit(1);
         else if (!strcmp(cur_op, "hupdate")) op_hupdate();
         else if (!strcmp(cur_op, "hmove")) op_hmove();
+        else if (!strcmp(cur_op, "hinject")) op_hinject();
         else if (!strcmp(cur_op, "hfinal")) op_hfinal();
         else if (!strcmp(cur_op, "hfree")) op_hfree();
         else if (!strcmp(cur_op, "hmac")) op_hmac();
